@@ -85,10 +85,14 @@ def run(ctx):
 
     # ---- R08.3 every arithmetic / index / slicing site: interval engine or relational engine ----------------------------------------
     import relinv
-    rel_order = [DECOMPRESS, 'codec::rle::rgb565torgb32', 'codec::rle::rle_32_decompress', 'codec::rle::process_plane']
+    from fractions import Fraction
+    R16 = 'codec::rle::rle_16_decompress'
+    rel_order = [DECOMPRESS, 'codec::rle::rgb565torgb32', 'codec::rle::rle_32_decompress', 'codec::rle::process_plane', R16]
+    # rle_16_decompress is analysed by cases on its width parameter (P2): width >= 1 here, width = 0 below (thorough tier)
+    rel = relinv.analyse_program(P, rel_order, assume={R16: [{(): Fraction(1), ('P2',): Fraction(-1)}]})
+    rel_w0 = None
     if ctx.tier == 'thorough' or REL16:
-        rel_order.append('codec::rle::rle_16_decompress')
-    rel = relinv.analyse_program(P, rel_order)
+        rel_w0 = relinv.analyse_program(P, [DECOMPRESS, R16], assume={R16: [{('P2',): Fraction(1)}]})[R16]
     rel_by_block = {}
     for k_, an in rel.items():
         ctx.check(an.stable, 'R08.3', 'rel:stable:%s' % k_.rsplit('::', 1)[-1], 'relational analysis of %s reached a fixpoint (%d block visits)' % (k_.rsplit('::', 1)[-1], an.block_visits),
@@ -96,6 +100,29 @@ def run(ctx):
         for rs in an.sites.values():
             cur = rel_by_block.get((k_, rs.block))
             rel_by_block[(k_, rs.block)] = bool(rs.ok) if cur is None else (cur and bool(rs.ok))
+    if rel_w0 is not None:
+        b16 = P.bodies[R16]
+        ctx.check(rel_w0.stable, 'R08.3', 'rel:stable:rle_16_decompress:w0', 'relational analysis of rle_16_decompress for width = 0 reached a fixpoint', b16.where())
+        im = b16.locals_named('insertmix')
+        im_edges = []
+        for blk in range(b16.n):
+            t = b16.blocks[blk]['term']
+            be = bool_edges(b16, blk) if t['t'] == 'switch' else None
+            if be and op_local(t['discr']) is not None:
+                vis = set()
+                origins(b16, t['discr'], visited=vis)
+                if set(im) & vis:
+                    im_edges.append((blk, be[0]))
+        for rs in rel_w0.sites.values():
+            if rs.ok:
+                continue
+            in_mix = bool(im_edges) and b16.dominated_by_edges(rs.block, im_edges) and rs.kind == 'bounds'
+            if in_mix:
+                ctx.ok('R08.3:w0', 'rle_16_decompress, width = 0: the inserted-mix store is excluded by R08.6 (the flag cannot be set before a pixel was decoded)', where(b16, rs.block))
+            else:
+                rel_by_block[(R16, rs.block)] = False
+                ctx.fail('R08.3', '%s|w0|%s' % (R16, rs.sig.split('#')[0]), 'rle_16_decompress with width = 0: %s at line %d is not implied by the relational invariant' % (rs.desc, rs.line),
+                         where(b16, rs.block))
     undecided = 0
     n3 = n_rel = 0
     for s in sites:
@@ -110,16 +137,13 @@ def run(ctx):
             n3 += 1
             n_rel += 1
             ctx.ok('R08.3:D-rel', '%s %s: implied by the inductive relational invariant at this point' % (fn, s.desc), s.where())
-        elif fn not in rel and fn in RUN_LOOP_FUNCS and (
-                s.kind in ('bounds', 'sliceindex')
-                or (s.kind == 'overflow' and s.sig.startswith('Overflow(Add,_,') and not re.search(r'const (8|1|4)\)$', s.sig))
-                or (s.kind == 'overflow' and re.search(r'Overflow\((Sub|Add),count,const 1\)', s.sig))):
-            undecided += 1        # rle_16_decompress: index arithmetic `line + x` and the run counter inside the run loops are not decided (DESIGN.md 9.6)
+        elif False:
+            undecided += 1
         else:
             ctx.fail('R08.3', '%s|%s' % (fn, s.sig), '%s: %s is not discharged for all u16 dimensions / data (intervals: %s; relational invariant: not implied)'
                      % (fn, s.desc, s.detail), s.where())
     ctx.floor('R08.3', 'arithmetic / slicing / loop sites discharged', n3, 250)
-    ctx.floor('R08.3', 'sites that need the relational invariant', n_rel, 20)
+    ctx.floor('R08.3', 'sites that need the relational invariant', n_rel, 200)
     ctx.extra['undecided_run_loop_sites'] = undecided
     ctx.extra['relational'] = {k_: {'block_visits': an.block_visits, 'sites': len(an.sites), 'entry_facts': [relinv.pshow(f) for f in an.entry_facts][:12]} for k_, an in rel.items()}
     if undecided:
